@@ -325,6 +325,9 @@ def check(repo, rep, tier):
     rep.rule('R4.1', 'schema conformance of the 10 unification-based combinators incl. slash preservation, modifier shortcut, labels, head_is_left=False, dispatch')
     rep.rule('R4.2', 'SSEQ: result is the right input, guarded by membership of both inputs in the root list')
     rep.rule('R4.3', '_unary_rule_symbol: all labels reachable, family sizes, feature access defined for every Feature class')
+    from ..lints import r_late_binding
+    r_late_binding(repo, rep, 'R4.1', [rg.JA, 'depccg/grammar/__init__.py'],
+                   'every rule built by the loop carries the symbol (or pattern) of the last one, so a result is labelled with a schema that does not justify it')
     rg.check_is_modifier(mod, rep, 'R4.1')
     labels = set()
     for name, fn in combinator_functions(mod):
